@@ -1,8 +1,10 @@
 //! C04: unoccupied storage is never observed; buffers with equal logical contents are
 //! indistinguishable.
 //!
-//! Two buffers A and B get the *same* logical contents (ids 0..len) but independent front
-//! positions and independent byte patterns in their unoccupied slots.  The same operation with
+//! Two buffers get the *same* logical contents (ids 0..len): a reference (front position 0, a fixed
+//! byte pattern in the unoccupied slots) and one with a symbolic front position and symbolic bytes
+//! in its unoccupied slots.  Agreement of every symbolic layout with the one reference gives
+//! pairwise agreement of all layouts.  The same operation with
 //! the same arguments is applied to both, and everything observable — return value, length,
 //! every element by position, iteration order, what the destructors ran on, during the
 //! operation and at the final drop — must be pairwise equal.  Nothing here refers to the
@@ -52,126 +54,152 @@ fn enc(t: Option<u8>) -> u16 {
     }
 }
 
-pub const GROUPS: usize = 3;
+pub const OPS: usize = 20;
 
-/// apply operation `op` of group `G` with arguments `(a, b)`; returns the encoded return value
-fn apply<const N: usize, const G: usize>(buf: &mut CircularBuffer<N, Tok>, op: u8, a: usize, b: usize, len: usize) -> (u16, u16) {
+/// apply operation number `OP` (selected at compile time: one small query per operation) with arguments `(a, b)`;
+/// returns the encoded return value(s)
+fn apply<const N: usize, const OP: usize>(buf: &mut CircularBuffer<N, Tok>, a: usize, b: usize, len: usize) -> (u16, u16) {
     let mut r2 = NONE;
-    let r = if G == 0 {
-        match op {
-            0 => enc(buf.push_back(Tok::new(0x40)).map(|t| t.hold())),
-            1 => enc(buf.push_front(Tok::new(0x40)).map(|t| t.hold())),
-            2 => enc(buf.pop_back().map(|t| t.hold())),
-            3 => enc(buf.pop_front().map(|t| t.hold())),
-            4 => enc(buf.remove(a).map(|t| t.hold())),
-            5 => enc(buf.swap_remove_back(a).map(|t| t.hold())),
-            _ => enc(buf.swap_remove_front(a).map(|t| t.hold())),
+    let _ = len;
+    let r = match OP {
+        0 => enc(buf.push_back(Tok::new(0x40)).map(|t| t.hold())),
+        1 => enc(buf.push_front(Tok::new(0x40)).map(|t| t.hold())),
+        2 => enc(buf.pop_back().map(|t| t.hold())),
+        3 => enc(buf.pop_front().map(|t| t.hold())),
+        4 => enc(buf.remove(a).map(|t| t.hold())),
+        5 => enc(buf.swap_remove_back(a).map(|t| t.hold())),
+        6 => enc(buf.swap_remove_front(a).map(|t| t.hold())),
+        7 => {
+            buf.truncate_back(a);
+            NONE
         }
-    } else if G == 1 {
-        match op {
-            0 => {
-                buf.truncate_back(a);
-                NONE
-            }
-            1 => {
-                buf.truncate_front(a);
-                NONE
-            }
-            2 => {
-                // a, b were assumed to be a valid range by the caller
-                let mut d = buf.drain(a..b);
-                let x = enc(d.next().map(|t| t.hold()));
-                r2 = enc(d.next_back().map(|t| t.hold()));
-                drop(d);
-                x
-            }
-            3 => {
-                // in range by assumption
-                buf.swap(a, b);
-                NONE
-            }
-            4 => enc(buf.get(a).map(|t| t.0)),
-            5 => {
-                r2 = enc(buf.nth_back(a).map(|t| t.0));
-                enc(buf.back().map(|t| t.0))
-            }
-            _ => {
-                let x = match buf.try_push_back(Tok::new(0x40)) {
-                    Ok(()) => NONE,
-                    Err(t) => t.hold() as u16,
-                };
-                x
-            }
+        8 => {
+            buf.truncate_front(a);
+            NONE
         }
-    } else {
-        match op {
-            0 => {
-                let src = [Tok::new(0x20), Tok::new(0x21), Tok::new(0x22), Tok::new(0x23), Tok::new(0x24), Tok::new(0x25), Tok::new(0x26)];
-                let k = if a < 7 { a } else { 7 };
-                buf.extend_from_slice(&src[..k]);
-                core::mem::forget(src);
-                NONE
+        9 => {
+            // a, b were assumed to be a valid range by the caller
+            let mut d = buf.drain(a..b);
+            let x = enc(d.next().map(|t| t.hold()));
+            r2 = enc(d.next_back().map(|t| t.hold()));
+            drop(d);
+            x
+        }
+        10 => {
+            // in range by assumption
+            buf.swap(a, b);
+            NONE
+        }
+        11 => {
+            r2 = enc(buf.nth_back(a).map(|t| t.0));
+            enc(buf.get(a).map(|t| t.0))
+        }
+        12 => match buf.try_push_back(Tok::new(0x40)) {
+            Ok(()) => NONE,
+            Err(t) => t.hold() as u16,
+        },
+        13 => {
+            let src = [Tok::new(0x20), Tok::new(0x21), Tok::new(0x22), Tok::new(0x23), Tok::new(0x24), Tok::new(0x25), Tok::new(0x26)];
+            let k = if a < 7 { a } else { 7 };
+            buf.extend_from_slice(&src[..k]);
+            core::mem::forget(src);
+            NONE
+        }
+        14 => {
+            let c = buf.clone();
+            let mut x = 0u16;
+            let mut i = 0;
+            while i < N {
+                if let Some(t) = c.get(i) {
+                    x = x.wrapping_mul(7).wrapping_add(t.0 as u16);
+                }
+                i += 1;
             }
-            1 => {
-                let c = buf.clone();
-                let mut x = 0u16;
+            r2 = c.len() as u16;
+            drop(c);
+            x
+        }
+        15 => {
+            buf.fill_spare(Tok::new(0x40));
+            NONE
+        }
+        16 => {
+            let mut k = 0u8;
+            buf.fill_with(|| {
+                k += 1;
+                Tok::new(0x50 + k)
+            });
+            k as u16
+        }
+        17 => {
+            let mut o = CircularBuffer::<N, Tok>::new();
+            let mut i = 0;
+            while i < a && i < N {
+                core::mem::forget(o.push_back(Tok::new(0x30 + i as u8)));
+                i += 1;
+            }
+            buf.clone_from(&o);
+            core::mem::forget(o);
+            NONE
+        }
+        18 => {
+            let mut x = 0u16;
+            {
+                let sl = buf.make_contiguous();
                 let mut i = 0;
-                while i < N {
-                    if let Some(t) = c.get(i) {
-                        x = x.wrapping_mul(7).wrapping_add(t.0 as u16);
-                    }
+                while i < sl.len() {
+                    x = x.wrapping_mul(7).wrapping_add(sl[i].0 as u16);
                     i += 1;
                 }
-                r2 = c.len() as u16;
-                drop(c);
-                x
+                r2 = sl.len() as u16;
             }
-            2 => {
-                buf.fill_spare(Tok::new(0x40));
-                NONE
+            x
+        }
+        _ => {
+            // iterate a sub-range from the back
+            let mut x = 0u16;
+            let mut it = buf.range(a..b);
+            while let Some(t) = it.next_back() {
+                x = x.wrapping_mul(7).wrapping_add(t.0 as u16);
             }
-            3 => {
-                let mut k = 0u8;
-                buf.fill_with(|| {
-                    k += 1;
-                    Tok::new(0x50 + k)
-                });
-                k as u16
-            }
-            4 => {
-                let mut o = CircularBuffer::<N, Tok>::new();
-                let mut i = 0;
-                while i < a && i < N {
-                    core::mem::forget(o.push_back(Tok::new(0x30 + i as u8)));
-                    i += 1;
-                }
-                buf.clone_from(&o);
-                core::mem::forget(o);
-                NONE
-            }
-            _ => {
-                let mut x = 0u16;
-                {
-                    let sl = buf.make_contiguous();
-                    let mut i = 0;
-                    while i < sl.len() {
-                        x = x.wrapping_mul(7).wrapping_add(sl[i].0 as u16);
-                        i += 1;
-                    }
-                    r2 = sl.len() as u16;
-                }
-                let _ = len;
-                x
-            }
+            x
         }
     };
     (r, r2)
 }
 
-fn observe_one<const N: usize, const G: usize, S: Src>(s: &mut S, op: u8, a: usize, b: usize, want_len: usize) -> Observed {
-    let St { mut buf, len, .. } = build::<N, S>(s);
-    s.assume(len == want_len);
-    let (ret, ret2) = apply::<N, G>(&mut buf, op, a, b, len);
+/// reference buffer: front position 0, fixed garbage pattern, contents 0..len.  Every symbolic layout is compared
+/// with this one layout; equality with a common reference gives pairwise equality.
+fn build_reference<const N: usize>(len: usize) -> CircularBuffer<N, Tok> {
+    let mut buf = CircularBuffer::<N, Tok>::new();
+    let mut i = 0;
+    while i < N {
+        core::mem::forget(buf.push_back(Tok::garbage(0x5A)));
+        i += 1;
+    }
+    let mut i = 0;
+    while i < N {
+        core::mem::forget(buf.pop_front());
+        i += 1;
+    }
+    crate::tok::ledger_reset();
+    let mut j = 0;
+    while j < len {
+        core::mem::forget(buf.push_back(Tok::new(j as u8)));
+        j += 1;
+    }
+    buf
+}
+
+fn observe_one<const N: usize, const OP: usize, S: Src>(s: &mut S, a: usize, b: usize, want_len: usize, reference: bool) -> Observed {
+    let (mut buf, len) = if reference {
+        (build_reference::<N>(want_len), want_len)
+    } else {
+        let St { buf, len, .. } = build::<N, S>(s);
+        s.assume(len == want_len);
+        (buf, len)
+    };
+    let (ret, ret2) = apply::<N, OP>(&mut buf, a, b, len);
     let mut o = Observed {
         ret,
         ret2,
@@ -226,28 +254,34 @@ fn observe_one<const N: usize, const G: usize, S: Src>(s: &mut S, op: u8, a: usi
     o
 }
 
-/// group G of operations on two buffers with equal contents and independent layout/garbage
-pub fn two_buffers<const N: usize, const G: usize, const P: u32, S: Src>(s: &mut S) {
+/// operation OP on two buffers with equal contents and independent layout/garbage
+pub fn two_buffers<const N: usize, const OP: usize, const P: u32, S: Src>(s: &mut S) {
     let len = s.usize();
     s.assume(len <= N);
-    let op = s.u8();
-    s.assume(op < 7);
     let a = s.usize();
     let b = s.usize();
-    if G == 1 && op == 2 {
+    if OP == 9 || OP == 19 {
         s.assume(a <= b && b <= len);
     }
-    if G == 1 && op == 3 {
+    if OP == 10 {
         s.assume(a < len && b < len);
     }
-    let oa = observe_one::<N, G, S>(s, op, a, b, len);
-    let ob = observe_one::<N, G, S>(s, op, a, b, len);
+    let oa = observe_one::<N, OP, S>(s, a, b, len, true);
+    let ob = observe_one::<N, OP, S>(s, a, b, len, false);
     chk!(oa.flags == 0 && ob.flags == 0, "no destructor or clone ran on a slot that holds no live element");
     chk!(oa.ret == ob.ret && oa.ret2 == ob.ret2, "the result does not depend on the layout or on unoccupied bytes");
     chk!(oa.len == ob.len, "the length afterwards does not depend on the layout or on unoccupied bytes");
     chk!(same(&oa.ids, &ob.ids, N + 1), "the contents afterwards do not depend on the layout or on unoccupied bytes");
     chk!(oa.iter_n == ob.iter_n && same(&oa.iter_ids, &ob.iter_ids, N), "iteration afterwards does not depend on the layout or on unoccupied bytes");
     chk!(oa.slices_total == ob.slices_total, "as_slices() total length does not depend on the layout");
-    chk!(same(&oa.drops_after_op, &ob.drops_after_op, N) && same(&oa.drops_extra, &ob.drops_extra, 8), "which elements an operation destroys does not depend on the layout or on unoccupied bytes");
+    chk!(same(&oa.drops_after_op, &ob.drops_after_op, N)
+            && oa.drops_extra[0] == ob.drops_extra[0]
+            && oa.drops_extra[1] == ob.drops_extra[1]
+            && oa.drops_extra[2] == ob.drops_extra[2]
+            && oa.drops_extra[3] == ob.drops_extra[3]
+            && oa.drops_extra[4] == ob.drops_extra[4]
+            && oa.drops_extra[5] == ob.drops_extra[5]
+            && oa.drops_extra[6] == ob.drops_extra[6]
+            && oa.drops_extra[7] == ob.drops_extra[7], "which elements an operation destroys does not depend on the layout or on unoccupied bytes");
     chk!(same(&oa.drops_final, &ob.drops_final, N), "what the final drop destroys does not depend on the layout or on unoccupied bytes");
 }
